@@ -176,6 +176,43 @@ def role_a(prop_id, wd, tier, rep):
                            "states_generated": res.generated, "result": "no invariant violated"}
 
 
+OPS_A = {   # property -> (invariants of spec/GFIOps.tla, quick program set, thorough program set)
+    "C05": (["Consistent", "RefinesLaws"], ["SChain", "MskD", "SwSame"], ["D0", "SChain", "MskD", "Msk", "SwSame", "SwXY", "SSw", "MskSw"]),
+    "C06": (["UndoRestores"], ["MskD", "SwSame"], ["D0", "SChain", "MskD", "Msk", "SwSame", "SwXY", "SSw", "MskSw"]),
+    "C14": (["Consistent", "RefinesLaws", "UndoRestores"], ["MskD"], ["MskD", "Msk", "MskSw"]),
+}
+
+
+def ops_a(prop_id, wd, tier, rep):
+    """role A on the implementation-shaped operational model (spec/GFIOps.tla): its update rules refine the laws.
+    In the thorough tier the two repaired defects are re-introduced as spec constants and TLC must find the
+    counterexample (a vacuity guard for the invariants)."""
+    if prop_id not in OPS_A:
+        return
+    invs, quick, thorough = OPS_A[prop_id]
+    progs = quick if tier == "quick" else thorough
+
+    def run(tag, mask_after, switch_zero, expect_ok):
+        with open(os.path.join(wd, f"MCops_{tag}.tla"), "w") as f:
+            f.write(f"---- MODULE MCops_{tag} ----\nEXTENDS GFIOps\ncProgs == {{" + ", ".join(json.dumps(x) for x in progs) +
+                    "}\ncPV == {0, 2}\n====\n")
+        with open(os.path.join(wd, f"MCops_{tag}.cfg"), "w") as f:
+            f.write("CONSTANTS OpsProgs <- cProgs\n PV <- cPV\n" + f" MaskBwdAfter = {mask_after}\n SwitchBwdZero = {switch_zero}\nSPECIFICATION Spec\n" +
+                    "".join(f"INVARIANT {i}\n" for i in (invs if expect_ok else ["RefinesLaws", "UndoRestores"])) + "CHECK_DEADLOCK FALSE\n")
+        return vlib.run_tlc(f"MCops_{tag}", os.path.join(wd, f"MCops_{tag}.cfg"), wd, spec_dir=wd, jvm=JVM_LIB + ["-Xss64m"],
+                            tag=f"ops_{tag}", timeout=3000, expect_ok=expect_ok)
+    res = run("ok", "FALSE", "FALSE", True)
+    rep.add_tlc(res)
+    info = {"module": "GFIOps", "invariants": invs, "programs": progs, "distinct_states": res.distinct, "result": "no invariant violated"}
+    if tier == "thorough":
+        for tag, ma, sz in (("maskbwd", "TRUE", "FALSE"), ("switchbwd", "FALSE", "TRUE")):
+            r = run(tag, ma, sz, False)
+            if r.rc == 0:
+                raise vlib.MachineryError(f"GFIOps with the seeded defect {tag} was accepted by TLC: the invariants are vacuous")
+            info[f"defect_variant_{tag}"] = "counterexample found, as required"
+    rep.extra["role_A_operational"] = info
+
+
 def load_catalog(wd, rep=None):
     _mc_module(wd, "MCcat", {"ProgIds": [], "FirstOps": [], "EditOps": []})
     _cfg(wd, "MCcat", "SpecSub", "EmitCatalog", 0, 0, 1, 1)
@@ -331,6 +368,7 @@ def run(prop_id, tier, seed, replay=None):
     catalog = load_catalog(wd, rep)
     if not replay:
         role_a(prop_id, wd, tier, rep)
+        ops_a(prop_id, wd, tier, rep)
     if replay:
         cases = [replay_case]
     else:
